@@ -139,7 +139,7 @@ template <class A> static std::string do_op(const Shared<A> &S, char op, LedgerM
     case 'b': { typename A::Uri d; int rc = A::RemoveBaseUri(&d, &S.src, &S.base, URI_FALSE); std::string r = std::to_string(rc) + ":" + (rc == 0 ? text_of<A>(d) : ""); A::FreeUriMembers(&d); return r; }
     case 'c': return std::to_string(A::EqualsUri(&S.base, &S.src)) + std::to_string(A::EqualsUri(&S.base, &S.base));
     case 'd': { int n = -1; A::ToStringCharsRequired(&S.base, &n); return std::to_string(n) + ":" + text_of<A>(S.base); }
-    case 'e': { unsigned m = 0; A::NormalizeSyntaxMaskRequiredEx(&S.src, &m); return std::to_string(m) + "/" + std::to_string(A::NormalizeSyntaxMaskRequired(&S.base)); }
+    case 'e': { unsigned m = 0, m3 = 0; A::NormalizeSyntaxMaskRequiredEx(&S.src, &m); A::NormalizeSyntaxMaskRequiredEx(&S.ref, &m3); return std::to_string(m) + "/" + std::to_string(A::NormalizeSyntaxMaskRequired(&S.base)) + "/" + std::to_string(m3); }  // incl. the (usually relative) reference
     case 'f': { Ch *s = nullptr; int rc = A::ComposeQueryMalloc(&s, S.ql); std::string r = std::to_string(rc); if (rc == 0) { size_t l = 0; while (s[l]) l++; r += narrow<Ch>(s, s + l); free(s); } return r; }
     case 'g': { std::vector<Ch> out(6 * S.textT.size() + 1); Ch *e = A::Escape(S.textA, out.data(), URI_TRUE, URI_TRUE); return narrow<Ch>(out.data(), e); }
     case 'h': { std::vector<Ch> out(8 + 3 * S.textT.size() + 1); A::WindowsFilenameToUriString(S.textA, out.data()); size_t l = 0; while (out[l]) l++; return narrow<Ch>(out.data(), out.data() + l); }
